@@ -145,7 +145,10 @@ import re as _re
 
 def _lz(f):
     """finite itertools results as lists (the evaluator's loops and builtins take lists)"""
-    return lambda *a, **k: list(f(*a, **k))
+    g = lambda *a, **k: list(f(*a, **k))
+    if hasattr(f, "from_iterable"):
+        g.from_iterable = lambda it_: list(f.from_iterable(it_))
+    return g
 
 _PURE_METHODS = {
     bytes: {"startswith", "endswith", "hex", "decode", "lstrip", "rstrip", "strip", "find", "rfind", "index", "count", "join", "ljust", "rjust", "zfill", "center", "split", "rsplit",
@@ -164,7 +167,10 @@ _PURE_METHODS = {
     # digests of the standard library: pure functions of the bytes fed in
     type(_hl.sha256()): {"digest", "hexdigest", "update", "copy"},
     _hm.HMAC: {"digest", "hexdigest", "update", "copy"},
+    # a compiled struct layout: a constant of the source, packing / unpacking is the standard library's pure fixed-width conversion
+    __import__("struct").Struct: {"pack", "unpack", "unpack_from", "iter_unpack"},
 }
+_PURE_ATTRS = {__import__("struct").Struct: {"size", "format"}}
 
 
 class Evaluator:
@@ -178,7 +184,7 @@ class Evaluator:
         # written with (struct, BytesIO, math) are always available -- they are pure functions of their arguments
         import math as _m
         import struct as _st
-        self.externals = {"struct": Namespace(pack=_st.pack, unpack=lambda f_, b_: _st.unpack(f_, bytes(b_)), calcsize=_st.calcsize), "pack": _st.pack,
+        self.externals = {"struct": Namespace(pack=_st.pack, unpack=lambda f_, b_: _st.unpack(f_, bytes(b_)), calcsize=_st.calcsize, Struct=_st.Struct, unpack_from=_st.unpack_from), "pack": _st.pack, "Struct": _st.Struct,
                           "unpack": lambda f_, b_: _st.unpack(f_, bytes(b_)), "BytesIO": lambda b_=b"": FileStandIn(bytes(b_)),
                           "math": Namespace(ceil=_m.ceil, floor=_m.floor, log=_m.log, log2=_m.log2, sqrt=_m.sqrt), "ceil": _m.ceil, "floor": _m.floor,
                           "hashlib": Namespace(sha256=_hl.sha256, sha1=_hl.sha1, sha512=_hl.sha512, new=_hl.new, pbkdf2_hmac=_hl.pbkdf2_hmac),
@@ -194,7 +200,9 @@ class Evaluator:
                           "binascii": Namespace(a2b_base64=_ba.a2b_base64, b2a_base64=_ba.b2a_base64, hexlify=_ba.hexlify, unhexlify=_ba.unhexlify),
                           "base64": Namespace(b64encode=_b64.b64encode, b64decode=_b64.b64decode),
                           "defaultdict": _co.defaultdict, "OrderedDict": _co.OrderedDict, "collections": Namespace(defaultdict=_co.defaultdict, OrderedDict=_co.OrderedDict),
-                          "functools": Namespace(reduce=_ft.reduce, partial=_ft.partial), "reduce": _ft.reduce, "partial": _ft.partial,
+                          "functools": Namespace(reduce=_ft.reduce, partial=_ft.partial, lru_cache=("ident",), cache=("ident",)), "reduce": _ft.reduce, "partial": _ft.partial,
+                          "lru_cache": ("ident",), "cache": ("ident",),
+                          "operator": Namespace(itemgetter=__import__("operator").itemgetter), "itemgetter": __import__("operator").itemgetter,
                           "re": Namespace(compile=_re.compile, match=_re.match, fullmatch=_re.fullmatch, search=_re.search, findall=_re.findall, sub=_re.sub, split=_re.split,
                                           IGNORECASE=_re.IGNORECASE, I=_re.I)}
         self.externals.update(externals or {})
@@ -536,6 +544,15 @@ class Evaluator:
             if e.id in self.externals:
                 x = self.externals[e.id]
                 return x if isinstance(x, (Namespace, Obj)) or not callable(x) else ("pyfunc", x)   # data stand-ins (tables) are values
+            if e.id in getattr(mod, "ext_imports", {}) and e.id not in mod.functions and e.id not in mod.constants:
+                # a standard-library name imported under another local name (`from functools import lru_cache as _lru_cache`, `import struct as st`)
+                em, orig = mod.ext_imports[e.id]
+                x = self.externals.get(em.split(".")[0]) if orig is None else (
+                    getattr(self.externals.get(em.split(".")[0]), orig, None) if isinstance(self.externals.get(em.split(".")[0]), Namespace) else None)
+                if x is None and orig is not None:
+                    x = self.externals.get(orig)
+                if x is not None:
+                    return x if isinstance(x, (Namespace, Obj)) or not callable(x) else ("pyfunc", x)
             if e.id == "__file__":
                 return mod.path
             r = self.repo.resolve_name(mod.name, e.id)
@@ -733,6 +750,8 @@ class Evaluator:
                     v = _class_const(self.repo, m2, c2, e.attr)
                     if v is not Unknown:
                         return v
+                if e.attr in ("__name__", "__qualname__"):
+                    return o.cls
                 raise Undecided("class attribute %s.%s" % (o.cls, e.attr))
             if isinstance(o, SuperRef):
                 mro = self.repo.mro(o.obj.mod if isinstance(o.obj, (Obj, ClassRef)) else o.mod, o.obj.cls if isinstance(o.obj, (Obj, ClassRef)) else o.cls)
@@ -752,6 +771,11 @@ class Evaluator:
             for ty, ms in _PURE_METHODS.items():
                 if isinstance(o, ty) and e.attr in ms:
                     return ("pymethod", o, e.attr)
+            for ty, ms in _PURE_ATTRS.items():
+                if isinstance(o, ty) and e.attr in ms:
+                    return getattr(o, e.attr)
+            if isinstance(o, tuple) and len(o) == 2 and o[0] == "pyfunc" and e.attr == "from_iterable" and hasattr(o[1], "from_iterable"):
+                return ("pyfunc", o[1].from_iterable)
             if isinstance(o, set) and e.attr == "pop" and len(o) == 1:
                 return ("pymethod", o, e.attr)  # the only element: no dependence on the set's internal order
             if o is None:
@@ -932,9 +956,9 @@ class Evaluator:
                 args = [self._expr(a, env, mod, cls) for a in e.args]
                 kw = self._kwargs(e, env, mod, cls)
                 for k_ in ("key",):
-                    if k_ in kw and isinstance(kw[k_], tuple) and kw[k_] and kw[k_][0] in ("closure", "func", "method", "pyfunc"):
+                    if k_ in kw and isinstance(kw[k_], tuple) and kw[k_] and kw[k_][0] in ("closure", "func", "method", "pyfunc", "pymethod"):
                         kw[k_] = (lambda fv: (lambda *a_: self._apply(fv, list(a_), {}, e)))(kw[k_])
-                if nm in ("map", "filter") and args and isinstance(args[0], tuple) and args[0] and args[0][0] in ("closure", "func", "method", "pyfunc"):
+                if nm in ("map", "filter") and args and isinstance(args[0], tuple) and args[0] and args[0][0] in ("closure", "func", "method", "pyfunc", "pymethod"):
                     args[0] = (lambda fv: (lambda *a_: self._apply(fv, list(a_), {}, e)))(args[0])
                 elif nm in ("map", "filter") and args and isinstance(args[0], ClassRef):
                     raise Undecided("%s over a class" % nm)
@@ -987,6 +1011,12 @@ class Evaluator:
     def _apply(self, f, args, kw, e):
         if isinstance(f, tuple) and f and f[0] == "noop":
             return None
+        if isinstance(f, tuple) and f and f[0] == "ident":
+            # functools.lru_cache / cache: a memo in front of a function of the evaluated program is the function itself (the evaluator never
+            # memoises; that a memo is sound -- pure function, immutable values -- is the MEMO rule's obligation); lru_cache(maxsize=…) is the decorator
+            if args and isinstance(args[0], tuple) and args[0] and args[0][0] in ("func", "method", "closure", "pyfunc", "pymethod"):
+                return args[0]
+            return ("ident",)
         if isinstance(f, tuple) and f and f[0] == "closure":
             _, fdef, outer, m3, c3 = f
             ps3 = param_names(fdef)
